@@ -655,6 +655,14 @@ pub fn c18(case: &Case) -> Verdict {
 
 // ------------------------------------------------------------------ C19
 
+fn show(p: &(Plan, Vec<(usize, Plan)>)) -> String {
+    let mut s = format!("{:?}", p.0.stages);
+    for (b, ip) in &p.1 {
+        s += &format!(" batch#{}:{:?}", b, ip.stages);
+    }
+    s
+}
+
 fn plans(case: &Case) -> Result<(Plan, Vec<(usize, Plan)>), Verdict> {
     let (_, obs) = prepared(case)?;
     let mut inner: Vec<(usize, Plan)> = obs.inner.into_iter().collect();
@@ -695,7 +703,7 @@ pub fn c19(case: &Case, seed: u64) -> Verdict {
     let mut rng = Rng::new(seed ^ 0x5151);
     // (1) same sequence again
     match plans(case) {
-        Ok(p) if p != base => return Fails(format!("building the same registration sequence twice gave different plans: {:?} vs {:?}", base.0.stages, p.0.stages)),
+        Ok(p) if p != base => return Fails(format!("building the same registration sequence twice gave different plans: {} vs {}", show(&base), show(&p))),
         _ => {}
     }
     // (2) renaming of systems
@@ -714,7 +722,7 @@ pub fn c19(case: &Case, seed: u64) -> Verdict {
         ),
     };
     match plans(&c2) {
-        Ok(p) if p != base => return Fails(format!("renaming the systems changed the plan: {:?} vs {:?}", base.0.stages, p.0.stages)),
+        Ok(p) if p != base => return Fails(format!("renaming the systems changed the plan: {} vs {}", show(&base), show(&p))),
         _ => {}
     }
     // (2b) every unnamed system gets a name nobody refers to; (2c) every name nobody depends on is dropped
@@ -732,7 +740,7 @@ pub fn c19(case: &Case, seed: u64) -> Verdict {
         ),
     };
     match plans(&c2b) {
-        Ok(p) if p != base => return Fails(format!("giving the unnamed systems names (nobody depends on them) changed the plan: {:?} vs {:?}", base.0.stages, p.0.stages)),
+        Ok(p) if p != base => return Fails(format!("giving the unnamed systems names (nobody depends on them) changed the plan: {} vs {}", show(&base), show(&p))),
         _ => {}
     }
     let depended: std::cell::RefCell<BTreeSet<String>> = std::cell::RefCell::new(BTreeSet::new());
@@ -754,7 +762,7 @@ pub fn c19(case: &Case, seed: u64) -> Verdict {
         ),
     };
     match plans(&c2c) {
-        Ok(p) if p != base => return Fails(format!("dropping the names nobody depends on changed the plan: {:?} vs {:?}", base.0.stages, p.0.stages)),
+        Ok(p) if p != base => return Fails(format!("dropping the names nobody depends on changed the plan: {} vs {}", show(&base), show(&p))),
         _ => {}
     }
     // (3) injective relabelling of resources across types and dynamic ids (controllers' static data stay fixed)
@@ -788,7 +796,7 @@ pub fn c19(case: &Case, seed: u64) -> Verdict {
         ),
     };
     match plans(&c3) {
-        Ok(p) if p != base => return Fails(format!("an injective relabelling of the resources changed the plan: {:?} vs {:?}; relabelling {:?}", base.0.stages, p.0.stages, relabel)),
+        Ok(p) if p != base => return Fails(format!("an injective relabelling of the resources changed the plan: {} vs {}; relabelling {:?}", show(&base), show(&p), relabel)),
         _ => {}
     }
     // (4) permutation of each system's read / write lists
@@ -807,7 +815,7 @@ pub fn c19(case: &Case, seed: u64) -> Verdict {
         ),
     };
     match plans(&c4) {
-        Ok(p) if p != base => return Fails(format!("permuting the declared read/write lists changed the plan: {:?} vs {:?}", base.0.stages, p.0.stages)),
+        Ok(p) if p != base => return Fails(format!("permuting the declared read/write lists changed the plan: {} vs {}", show(&base), show(&p))),
         _ => {}
     }
     Holds
